@@ -60,9 +60,13 @@ example : placeMember ["inst"] [] ⟨[], 0⟩ { kind := Kind.file, name := "d/x"
 
 /-- the model's assumptions about the code of untar_file are what the translator reads in the source on every run
   (Gen/IoShapes.lean): every member name goes through the `..` guard before extraction, the extraction filter is `data`,
-  and attributes are not applied (`set_attrs=False`: modes come from the umask, owner read/write) -/
+  and attributes are not applied (`set_attrs=False`: modes come from the umask, owner read/write).  And about the tarfile of
+  the interpreter: `makelink` falls back to copying after an OSError or an AttributeError (what `chain` models), and the
+  extraction functions are, syntax tree for syntax tree, the ones the model was transcribed from (the translator refuses
+  any other fingerprint) -/
 theorem untar_code_is_the_model :
-    Gen.IoShapes.untarDotDotGuard = true ∧ Gen.IoShapes.untarFilter = "data" ∧ Gen.IoShapes.untarSetAttrs = false := by
+    Gen.IoShapes.untarDotDotGuard = true ∧ Gen.IoShapes.untarFilter = "data" ∧ Gen.IoShapes.untarSetAttrs = false ∧
+    "OSError" ∈ Gen.IoShapes.tarfileLinkFallbackOn ∧ "AttributeError" ∈ Gen.IoShapes.tarfileLinkFallbackOn := by
   decide
 
 /-- why the `..` guard of untar_file is needed (the defect D29, as a theorem about the model): WITHOUT it the `data` filter
